@@ -773,6 +773,14 @@ func verifyFunction(P *Program, SS *SpecSet, G *Globals, fn *ssa.Function, con *
 		fvs = append(fvs, &Val{T: t})
 		f.names[fv.Name()] = &specBinding{V: vc.sv(t, fv.Type()), Deref: true}
 	}
+	if vc.suffix != "" {
+		if _, taken := f.names["self"]; !taken {
+			// functype contracts may mention "self": the function value itself
+			t := vc.declareNamed("self_fn", "Int")
+			vc.assume("true", not(eq(t, "0")), "a function value is not nil")
+			f.names["self"] = &specBinding{V: ghost(t, "Int")}
+		}
+	}
 	f.entry = st.clone()
 	env := f.invEnv(f.names, st)
 	for _, cl := range con.Requires {
